@@ -139,15 +139,19 @@ struct Vector {
 
     /// Appends the `value` as a new element to the end of this vector.
     void push_back(const T &value) {
-        detach(inner->size + 1);
-        new (end()) T(value);
-        inner->size++;
+        // `value` may refer to an element of this vector; copy it before the buffer it
+        // lives in can be released by `detach`.
+        T copy(value);
+        push_back(std::move(copy));
     }
 
     /// Moves the `value` as a new element to the end of this vector.
     void push_back(T &&value) {
+        // `value` may refer to an element of this vector; move it out before the buffer it
+        // lives in can be released by `detach`.
+        T element(std::move(value));
         detach(inner->size + 1);
-        new (end()) T(std::move(value));
+        new (end()) T(std::move(element));
         inner->size++;
     }
 
